@@ -10,7 +10,8 @@
    [wf_iface] is the boolean input domain (see ASSUMPTIONS of harness/props/c12.py). *)
 From Coq Require Import String Ascii List Bool NArith ZArith.
 From KV Require Import Model.CValue Model.Layout Model.ProtoLang Spec.LayoutSpec
-                       Proofs.LayoutBasics Proofs.LayoutEnv Proofs.LayoutPacked Proofs.LayoutFactory.
+                       Proofs.LayoutBasics Proofs.LayoutEnv Proofs.LayoutPacked Proofs.LayoutFactory
+                       Gen.LayoutSrc Proofs.LayoutSource.
 Import ListNotations.
 Open Scope string_scope.
 Open Scope list_scope.
@@ -51,6 +52,16 @@ Theorem C12_member_sizes : forall i, wf_iface i = true -> forall e, build_env []
   /\ sizeof e hdr_name = Some hdr_size.
 Proof. exact member_sizes. Qed.
 Print Assumptions C12_member_sizes.
+
+(* The constants of the model are the constants of the source as it is now (Gen/LayoutSrc.v, regenerated on every
+   run): header struct name, name of the header member of a message, header fields (names, types, order), and the
+   integer typedefs of basetypes.h (GCC/LP64 branch) have the sizes and signedness Model/CValue assumes. *)
+Theorem C12_source_constants :
+  src_hdr_name = hdr_name /\ src_hdr_member = hdr_member
+  /\ src_hdr_fields = map (fun f => (fst f, prim_name (snd f))) hdr_fields
+  /\ forallb typedef_ok all_prims = true.
+Proof. exact source_constants. Qed.
+Print Assumptions C12_source_constants.
 
 (* ---- non-vacuity: three nesting levels, all eleven primitive types, defaults present / absent / empty at every level *)
 Definition ex_inner : list member :=
